@@ -176,6 +176,72 @@ def post_neigh_body(C):
             ('loop-variables-not-modified-by-the-body', z3.And(x2 == x, y2 == y, z2 == z))]
 
 
+# ---- get_grid_content (uspg_4d<face*>): body of the innermost loop -------------------------------------------------------
+def post_content_body(C):
+    o, n = C.old, C.new
+    nx, ny, nz = [g(o, C.this, 'nb_voxels_%s_' % a) for a in AX]
+    lst = o.sub(C.this, 'uspg_4d<face *>.voxel_lst_')
+    x, y, z = loop_vars(C, C.pre_state)
+    src = o.elem(lst, z * nx * ny + y * nx + x)
+    res = [v for k, v in C.post_state.env.items() if C.e.var_names.get(k) == 'grid_content'][0].ref
+    t = z3.Int('any_object')
+    cnt_o = o.arr('flist.count'); cnt_n = n.arr('flist.count')
+    x2, y2, z2 = loop_vars(C, C.post_state)
+    nonempty = o.f(src, 'flist.len') != 0
+    return [('content-of-the-visited-voxel-is-added-to-the-result', cnt_n[res][t] == z3.If(nonempty, cnt_o[res][t] + cnt_o[src][t], cnt_o[res][t])),
+            ('grid-content-untouched', cnt_n[src] == cnt_o[src]),
+            ('loop-variables-not-modified-by-the-body', z3.And(x2 == x, y2 == y, z2 == z))]
+
+
+def pre_content_body(C):
+    o = C.old
+    nx, ny, nz = [g(o, C.this, 'nb_voxels_%s_' % a) for a in AX]
+    lst = o.sub(C.this, 'uspg_4d<face *>.voxel_lst_')
+    out = [('grid-invariant', grid_inv(o, C.this)), ('one-slot-per-voxel', o.len(lst) == nx * ny * nz)]
+    for v, n_, a in zip(loop_vars(C, C.pre_state), (nx, ny, nz), AX):
+        out.append(('loop-variable-%s-in-the-grid' % a, z3.And(v >= 0, v < n_)))
+    res = [v for k, v in C.pre_state.env.items() if C.e.var_names.get(k) == 'grid_content'][0].ref
+    out.append(('result-is-a-local-list-not-a-voxel-of-the-grid', C.e.uf('elem_v', I, I)(res) != lst))
+    return out
+
+
+# ---- get_voxel_content, place_object by position (composition of the index functions) -------------------------------------
+def post_voxel_content(C):
+    o = C.old
+    nx, ny, nz = [g(o, C.this, 'nb_voxels_%s_' % a) for a in AX]
+    lst = o.sub(C.this, 'uspg_4d<face *>.voxel_lst_')
+    x, y, z = [C.val('voxel_%s_id' % a) for a in AX]
+    return [('returns-the-list-of-that-voxel', C.ret.ref == o.elem(lst, z * nx * ny + y * nx + x))]
+
+
+def pre_voxel_content(C):
+    o = C.old
+    nx, ny, nz = [g(o, C.this, 'nb_voxels_%s_' % a) for a in AX]
+    lst = o.sub(C.this, 'uspg_4d<face *>.voxel_lst_')
+    return pre_flat(C) + [('one-slot-per-voxel', o.len(lst) == nx * ny * nz)]
+
+
+def pre_place_pos(C):
+    o = C.old
+    nx, ny, nz = [g(o, C.this, 'nb_voxels_%s_' % a) for a in AX]
+    lst = o.sub(C.this, 'uspg_4d<face *>.voxel_lst_')
+    return pre_3d(C) + [('one-slot-per-voxel', o.len(lst) == nx * ny * nz)]
+
+
+def post_place_pos(C):
+    o, n = C.old, C.new
+    nb = [g(o, C.this, 'nb_voxels_%s_' % a) for a in AX]
+    s_ = g(o, C.this, 'voxel_size_')
+    lst = o.sub(C.this, 'uspg_4d<face *>.voxel_lst_')
+    idx = []
+    for i, a in enumerate(AX):
+        fl = z3.ToInt((C.val('pos_' + a) - g(o, C.this, 'min_%s_' % a)) / s_)
+        idx.append(z3.If(fl < nb[i] - 1, fl, nb[i] - 1))
+    vox = o.elem(lst, idx[2] * nb[0] * nb[1] + idx[1] * nb[0] + idx[0])
+    obj = C.val('object').ref
+    return [('object-is-stored-in-the-voxel-of-its-position', n.arr('flist.count')[vox][obj] == o.arr('flist.count')[vox][obj] + 1)]
+
+
 # ---- lemmas (mathematics used to compose the contracts; proved by the same back ends) ---------------------------------
 def lemmas(reg):
     x, y, z, x2, y2, z2, nx, ny, nz = z3.Ints('lx ly lz lx2 ly2 lz2 lnx lny lnz')
@@ -205,4 +271,95 @@ def build(reg):
                      safety={'wrap'}, name='uspg_4d<face *>::get_neighborhood(voxel ids)::<loop bounds>'))
     reg.add(Contract('uspg_4d<face *>::get_neighborhood', PROP, signature=sig, pre=pre_neigh_body, post=post_neigh_body, slice_loop=2,
                      safety={'bounds', 'wrap'}, name='uspg_4d<face *>::get_neighborhood(voxel ids)::<loop body>'))
+    reg.add(Contract('uspg_4d<face *>::get_grid_content', PROP, pre=pre_content_body, post=post_content_body, slice_loop=2,
+                     safety={'bounds', 'wrap'}, name='uspg_4d<face *>::get_grid_content::<loop body>'))
+    reg.add(Contract('uspg_4d<face *>::get_voxel_content', PROP, pre=pre_voxel_content, post=post_voxel_content, safety={'bounds', 'wrap'}, assigns=[]))
+    reg.add(Contract('uspg_4d<face *>::place_object', PROP, signature='const double, const double, const double)', pre=pre_place_pos, post=post_place_pos,
+                     safety={'bounds', 'wrap', 'narrowing'}, name='uspg_4d<face *>::place_object(object, x, y, z)'))
     lemmas(reg)
+
+
+# ------------------------------------------------------------------------------------------------ native replay
+DRIVER = r'''
+#include "uspg_4d.hpp"
+#include <cstdio>
+#include <cstdlib>
+#include <cmath>
+// builds the grid for the box/voxel size of the counterexample and for the same box snapped to a whole number of voxels,
+// then checks the property on the corners, face centres and a neighbourhood query at the max corner (ASan/UBSan build)
+static int probe(double lo[3], double hi[3], double s){
+  uspg_4d<int> g(lo[0],lo[1],lo[2], hi[0],hi[1],hi[2], s, 8);
+  auto nb = g.get_nb_voxels(); int bad = 0;
+  for(int m=0;m<27;m++){
+    double p[3]; int k=m; for(int a=0;a<3;a++){ int c=k%3; k/=3; p[a] = c==0?lo[a]:(c==1?0.5*(lo[a]+hi[a]):hi[a]); }
+    auto id = g.get_3d_voxel_index(p[0],p[1],p[2]);
+    if(!(id[0]<nb[0] && id[1]<nb[1] && id[2]<nb[2])){ printf("FAIL point (%.17g,%.17g,%.17g) of the box maps to voxel (%u,%u,%u), grid has (%u,%u,%u)\n",p[0],p[1],p[2],id[0],id[1],id[2],nb[0],nb[1],nb[2]); bad=1; continue; }
+    g.place_object(m, p[0],p[1],p[2]);
+    int found=0; for(int x: g.get_voxel_content(id[0],id[1],id[2])) found += (x==m);
+    if(found!=1){ printf("FAIL object placed at (%.17g,%.17g,%.17g) not retrievable from its voxel\n",p[0],p[1],p[2]); bad=1; }
+    auto nbh = g.get_neighborhood(p[0],p[1],p[2]); int f2=0; for(int x: nbh) f2 += (x==m);
+    if(f2<1){ printf("FAIL object at the query point missing from its own neighbourhood\n"); bad=1; }
+  }
+  int total=0; for(int x: g.get_grid_content()){ (void)x; total++; }
+  if(total!=27 && !bad){ printf("FAIL get_grid_content returned %d objects, 27 stored\n", total); bad=1; }
+  return bad;
+}
+int main(int argc, char** argv){
+  double lo[3], hi[3]; for(int i=0;i<3;i++){ lo[i]=strtod(argv[1+i],0); hi[i]=strtod(argv[4+i],0); }
+  double s = strtod(argv[7],0);
+  int bad = probe(lo,hi,s);
+  double hi2[3]; for(int i=0;i<3;i++){ double k = std::ceil((hi[i]-lo[i])/s); if(k<1) k=1; hi2[i] = lo[i] + k*s; }
+  bad |= probe(lo,hi2,s);
+  if(!bad) printf("OK\n");
+  return bad;
+}
+'''
+
+
+def _box(ins):
+    def get(prefix):
+        v = [val for k, val in ins.items() if k.split('!')[0] == prefix]
+        return float(v[0]) if v else None
+    lo = [get('min_' + a) for a in AX]; hi = [get('max_' + a) for a in AX]
+    s = [val for k, val in ins.items() if 'voxel_size_' in k]
+    if any(x is None for x in lo + hi) or not s: return None
+    return lo + hi + [float(s[0])]
+
+
+def replay(ob, ins, run):
+    import native
+    b = _box(ins)
+    if b is None or not all(l < h for l, h in zip(b[:3], b[3:6])) or b[6] <= 0 or max((h - l) / b[6] for l, h in zip(b[:3], b[3:6])) > 300:
+        b = [0., 0., 0., 10., 7., 3., 1.]          # the canonical multiple-of-the-voxel-size box
+    code, out = native.run_driver(DRIVER, ['%r' % v for v in b], sanitize=True, timeout=300)
+    return {'confirmed': code != 0 and code not in (124, 125), 'exit': code, 'output': out, 'args': b,
+            'driver': 'specs/C20.py:DRIVER (real uspg_4d<int> from the current tree, ASan/UBSan build)'}
+
+
+def replay_recorded(data):
+    import native
+    b = data.get('native', {}).get('args')
+    if not b: return {'confirmed': False, 'output': 'no recorded inputs'}
+    code, out = native.run_driver(DRIVER, ['%r' % v for v in b], sanitize=True, timeout=300)
+    return {'confirmed': code != 0 and code not in (124, 125), 'output': out}
+
+
+EXPLANATION = ("Contracts on the real grid classes (template instantiations uspg_4d<face*>, uspg_4d<oriented_point>, uspg_3d<unsigned short>; an "
+               "explicit instantiation in the generated unity file makes clang emit every member body from the repository's headers). "
+               "update_dimensions: for EVERY point p of the declared box (free variable in the postcondition, faces and corners included) p is "
+               "indexable and its (clamped) voxel index is < nb per axis; voxel count = nx*ny*nz computed without wrap; grid empty afterwards. "
+               "get_3d_voxel_index / get_voxel_index: index formula, range, no unsigned wrap, no undefined double->unsigned conversion. "
+               "place_object (by voxel id and by position): the object's multiplicity in exactly that voxel grows by one, every other voxel and "
+               "object unchanged (frame). get_voxel_content returns that voxel's list. get_neighborhood(voxel ids): the loop bounds (state on "
+               "entry to the triple loop) cover the +-1 block clipped to the grid, and the loop body (arbitrary iteration) adds the whole content "
+               "of voxel (x,y,z) to the result and does not touch the loop variables; get_grid_content: same body contract. Lemmas: flattening "
+               "is injective on the grid; |q-p| <= voxel size implies (clamped) voxel indices differ by at most 1 per axis. Composition (for loops "
+               "with unit stride visit every integer of [start,end) once; with injectivity each voxel is read exactly once) gives: neighbourhood "
+               "returns every object within one voxel size, full-content returns each object exactly once.")
+ASSUMPTIONS = ["exact reals: the double computation of (pos-min)/size is treated as real division; delta = 2^-52 exactly",
+               "fewer than 2^20 voxels per axis (contract precondition; beyond 2^32 the double->unsigned conversion in the code is itself undefined)",
+               "std::forward_list modelled as a multiset of elements (push_front adds one occurrence; std::copy with front_inserter adds the source multiset)",
+               "the composition step 'a for loop with unit stride and an unmodified loop variable visits each integer of [start,end) exactly once' is language semantics, stated not machine-checked",
+               "the neighbourhood/content contracts are checked on the face* instantiation; uspg_3d and uspg_4d<oriented_point> share update_dimensions/index code (checked) but their list operations on value-type elements are only length-tracked"]
+UNVERIFIED = ["uspg_3d<unsigned short>::get_neighborhood / get_grid_content / place_object bodies (optional<T> slots) are not under contract",
+              "callers' obligation to pass positions inside the declared box (C06 for the contact grid, poisson sampling and the polarizer for the others)"]
